@@ -92,17 +92,19 @@ def prune_builds(keep=3):
 class Build:
     """One harness binary: compiler + flags + sources (relative to /verif)."""
 
-    def __init__(self, name, sources, compiler="g++", flags=None, libs=None, std="c++17"):
+    def __init__(self, name, sources, compiler="g++", flags=None, libs=None, std="c++17", plain_c_objects=None):
         self.name = name
         self.sources = sources if isinstance(sources, list) else [sources]
         self.compiler = compiler
         self.flags = flags if flags is not None else ["-O1"]
         self.libs = libs or []
         self.std = std
+        # C sources compiled separately with plain `gcc -O1` (NO sanitizer / instrumentation flags) and linked in
+        self.plain_c_objects = plain_c_objects or []
 
     def key(self):
         h = hashlib.sha256()
-        h.update(repr((self.name, self.sources, self.compiler, self.flags, self.libs, self.std, verif_src_hash())).encode())
+        h.update(repr((self.name, self.sources, self.compiler, self.flags, self.libs, self.std, self.plain_c_objects, verif_src_hash())).encode())
         return h.hexdigest()[:12]
 
     def path(self):
@@ -124,6 +126,13 @@ class Build:
             tmp = out + ".tmp%d" % os.getpid()
             cmd = self.command(tmp)
             t0 = time.time()
+            for k, csrc in enumerate(self.plain_c_objects):
+                obj = out + ".c%d.o" % k
+                pc = subprocess.run(["gcc", "-O1", "-c", os.path.join(VERIF, csrc), "-o", obj], stdout=subprocess.PIPE, stderr=subprocess.STDOUT, text=True)
+                if pc.returncode != 0:
+                    print("INFRASTRUCTURE ERROR: cannot compile %s:\n%s" % (csrc, pc.stdout[-2000:]))
+                    os._exit(2)
+                cmd.insert(cmd.index("-o"), obj)
             p = subprocess.run(cmd, stdout=subprocess.PIPE, stderr=subprocess.STDOUT, text=True)
             if p.returncode != 0:
                 if os.path.exists(tmp):
